@@ -26,6 +26,10 @@ RULE = ('kernel cases: C02/C04 generators plus near-axis meridional inputs (x=L=
         'keyword insertion at an index, insert + remove_surface; exactly one stop asserted on the final prescription and the '
         'stop-centre clause judged at the stop the history asks for; the pupil scale of a bundle uses its own vignetting factor); '
         '(a) M_C05.mtrace/mlaunch (FOps) vs Optic.trace_generic on meridional rays at eps in {1,0.3,1e-2,1e-4}; '
+        'round 5 classes: the Optic is reached by lensgen.build_via routes direct/handbuilt/reuse(reset)/roundtrip(to_dict/from_dict), explicit ImageSurface object, and '
+        'the ray coordinates are written as float arrays / Python scalars with int 0 / integer zero arrays / float scalars; every expected '
+        'paraxial value is computed from the generated prescription (spec_paraxial, matrix optics incl. entrance pupil, EPD, f2) and the '
+        'library Paraxial values are compared with it (clause paraxial-vs-prescription), lensgen.prescription_problems checks the object; '
         '(b) the property itself: eps = 1e-1..1e-4 (7 values), marginal-type (Hy=0,Py=eps) and chief-type (Hy=eps,Py=0) rays, '
         'fitted order (asymptotic tail: the four smallest eps above the noise floor, else the whole range) of |real/scale - paraxial| >= 1.9 at every surface for height and tangent, axial focus -> paraxial, '
         'zero-pupil ray -> stop centre, Paraxial.trace(Hy,Py) vs the real ray. For angle fields the field scale factor is '
@@ -103,6 +107,7 @@ def _gen_specs(ctx, nl, salt, allow=('plane', 'standard', 'conic', 'even_asphere
     import lensgen
     rng = random.Random(ctx.seed * 31 + salt)
     r2 = random.Random(ctx.seed * 131 + salt)      # separate stream: the lens population stays the one of round 1
+    r3 = random.Random(ctx.seed * 977 + salt)      # round 5 stream (routes, argument forms)
     out = []
     for _ in range(nl):
         spec = lensgen.gen_spec(rng, allow=list(allow), decenter=False)
@@ -121,6 +126,12 @@ def _gen_specs(ctx, nl, salt, allow=('plane', 'standard', 'conic', 'even_asphere
             lensgen.reorder_fields(spec, r2)
         if r2.random() < 0.45:
             _plan_edits(spec, r2)
+        # round 5: the route by which the Optic object is reached and the way the caller writes the ray coordinates
+        spec['route'] = r3.choice(['direct', 'direct', 'handbuilt', 'reuse', 'reuse', 'roundtrip'])
+        spec['route_seed'] = r3.randrange(10 ** 6)
+        spec['arg_form'] = r3.choice(ARG_FORMS)
+        if r3.random() < 0.15:
+            spec['image_object'] = True
         out.append(spec)
     return out
 
@@ -180,7 +191,9 @@ def build_lens(spec):
     from optiland.surfaces import Surface
     from optiland.geometries import Plane
     from optiland.coordinate_system import CoordinateSystem
-    o = lensgen.build({k: v for k, v in spec.items() if k != 'edits'})
+    import random
+    base = {k: v for k, v in spec.items() if k not in ('edits', 'route', 'route_seed', 'arg_form')}
+    o = lensgen.build_via(base, spec.get('route', 'direct'), random.Random(spec.get('route_seed', 0)))
     for e in spec.get('edits', []):
         k = e['index']
         if e['op'] in ('obj_dummy', 'obj_stop', 'insert_remove'):
@@ -241,7 +254,106 @@ CORPUS = [
                   {'type': 'standard', 'radius': 90.0, 'thickness': -120.0, 'material': 'air'}],
      'aperture': ['EPD', 8.0], 'field_type': 'object_height', 'fields': [[0.0, 0.0, 0.0, 0.0], [5.0, 0.0, 0.0, 0.0]],
      'wavelengths': [[0.55, True]], 'telecentric': False},
+    # round 5: the same kinds of lens reached by other routes / written with other argument forms
+    {'object_thickness': 123.4,
+     'surfaces': [{'type': 'standard', 'radius': 45.0, 'thickness': 5.5, 'is_stop': False, 'material': ['ideal', 1.55, 0.0]},
+                  {'type': 'standard', 'radius': -70.0, 'thickness': 4.25, 'material': 'air'},
+                  {'type': 'standard', 'radius': INF, 'thickness': 66.6, 'is_stop': True, 'material': 'air'}],
+     'aperture': ['EPD', 6.0], 'field_type': 'object_height', 'fields': [[0.0, 0.0, 0.0, 0.0], [4.3, 0.0, 0.0, 0.0]],
+     'wavelengths': [[0.55, True]], 'telecentric': False, 'arg_form': 'py_int_zero'},
+    {'object_thickness': 250.75,
+     'surfaces': [{'type': 'standard', 'radius': 60.0, 'thickness': 4.0, 'is_stop': True, 'material': ['ideal', 1.6, 0.0]},
+                  {'type': 'standard', 'radius': -85.0, 'thickness': 90.3, 'material': 'air'}],
+     'aperture': ['objectNA', 0.02], 'field_type': 'angle', 'fields': [[0.0, 0.0, 0.0, 0.0], [2.5, 0.0, 0.0, 0.0]],
+     'wavelengths': [[0.55, True]], 'telecentric': False, 'arg_form': 'np_int_zero'},
+    {'object_thickness': INF,
+     'surfaces': [{'type': 'standard', 'radius': 40.0, 'thickness': 5.0, 'is_stop': False, 'material': ['ideal', 1.52, 0.0]},
+                  {'type': 'standard', 'radius': -60.0, 'thickness': 10.0, 'material': 'air'},
+                  {'type': 'standard', 'radius': INF, 'thickness': 36.0, 'is_stop': True, 'material': 'air'}],
+     'aperture': ['imageFNO', 6.0], 'field_type': 'angle', 'fields': [[0.0, 0.0, 0.0, 0.0], [6.0, 0.0, 0.0, 0.0]],
+     'wavelengths': [[0.55, True]], 'telecentric': False, 'route': 'reuse', 'route_seed': 7},
+    {'object_thickness': 180.5,
+     'surfaces': [{'type': 'standard', 'radius': 55.0, 'thickness': 6.0, 'is_stop': True, 'material': ['ideal', 1.7, 0.0]},
+                  {'type': 'standard', 'radius': -48.0, 'conic': -0.6, 'thickness': 75.0, 'material': 'air'}],
+     'aperture': ['EPD', 7.0], 'field_type': 'object_height', 'fields': [[0.0, 0.0, 0.0, 0.0], [3.0, 0.0, 0.0, 0.0]],
+     'wavelengths': [[0.55, True]], 'telecentric': False, 'route': 'roundtrip', 'arg_form': 'py_float_scalars'},
+    {'object_thickness': INF,
+     'surfaces': [{'type': 'standard', 'radius': 70.0, 'thickness': 4.0, 'is_stop': True, 'material': ['ideal', 1.5, 0.0]},
+                  {'type': 'standard', 'radius': -110.0, 'thickness': 88.0, 'material': 'air'}],
+     'aperture': ['EPD', 9.0], 'field_type': 'angle', 'fields': [[0.0, 0.0, 0.0, 0.0], [4.0, 0.0, 0.0, 0.0]],
+     'wavelengths': [[0.55, True]], 'telecentric': False, 'route': 'handbuilt', 'route_seed': 3, 'image_object': True},
 ]
+
+
+# ----------------------------------------------------------------------------------------------
+# the paraxial prediction computed from the PRESCRIPTION that was generated (never read back from the lens object)
+# ----------------------------------------------------------------------------------------------
+def final_prescription(spec, w):
+    """surface list of the final lens (after the edit history), from the spec alone"""
+    import numpy as np
+    out=[]; z=0.0; n=1.0
+    for s in spec['surfaces']:
+        m=s.get('material','air'); refl = (m=='mirror')
+        if refl: n2=n
+        elif m=='air': n2=1.0
+        elif m[0]=='ideal': n2=float(m[1])
+        else:
+            from optiland.materials import Material
+            n2=float(np.ravel((Material(m[1]) if len(m)==2 else Material(m[1],m[2])).n(w))[0])
+        R=float(s.get('radius',INF)); c=0.0 if math.isinf(R) else 1.0/R
+        c_r=c
+        if s.get('type')=='even_asphere' and s.get('coefficients'): c=c+2*float(s['coefficients'][0])
+        out.append(dict(z=z,c=c,c_radius_only=c_r,n1=n,n2=n2,refl=refl,stop=bool(s.get('is_stop'))))
+        n=n2; z+=float(s['thickness'])
+    zimg=z
+    for e in spec.get('edits',[]):
+        if e['op']=='insert_remove': continue
+        k=e['index']          # index in the optic list (object = 0)
+        prev=out[k-2]
+        zz = e['z'] if 'z' in e else prev['z']
+        st = e['op'].endswith('_stop')
+        if st:
+            for q in out: q['stop']=False
+        out.insert(k-1, dict(z=zz,c=0.0,c_radius_only=0.0,n1=prev['n2'],n2=prev['n2'],refl=False,stop=st))
+    out.append(dict(z=zimg,c=0.0,c_radius_only=0.0,n1=out[-1]['n2'],n2=out[-1]['n2'],refl=False,stop=False,image=True))
+    return out
+def _fwd(ss, y,u,z, key='c'):
+    rec=[]
+    for s in ss:
+        y=y+u*(s['z']-z); z=s['z']
+        if s['refl']: u=-u-2*s[key]*y
+        else: u=(s['n1']*u - y*(s['n2']-s['n1'])*s[key])/s['n2']
+        rec.append((y,u))
+    return rec
+def spec_paraxial(spec, w, key='c'):
+    ss=final_prescription(spec,w)
+    nm=sum(1 for s in ss if s['refl'])
+    r=_fwd(ss,1.0,0.0,ss[0]['z']-1.0,key)
+    f2=(-1.0/r[-1][1])*(-1)**nm if r[-1][1]!=0 else INF
+    F2=-r[-1][0]/r[-1][1] if r[-1][1]!=0 else INF
+    si=[i for i,s in enumerate(ss) if s['stop']][0]
+    # entrance pupil: the stop centre seen from object space (reverse trace through the surfaces in front)
+    if si==0: EPL=ss[0]['z']
+    else:
+        y,u,z=0.0,0.1,ss[si]['z']
+        for s in reversed(ss[:si]):
+            y=y+u*(s['z']-z); z=s['z']
+            if s['refl']: u=-u-2*s[key]*y
+            else: u=(s['n2']*u + y*(s['n2']-s['n1'])*s[key])/s['n1']
+        EPL=z-y/u
+    ap,val=spec['aperture']
+    zobj=-float(spec['object_thickness'])
+    if ap=='EPD': EPD=val
+    elif ap=='imageFNO': EPD=abs(f2)/val
+    else: EPD=2*(EPL-zobj)*math.tan(math.asin(val/1.0))
+    if math.isinf(zobj): marg=_fwd(ss,EPD/2,0.0,ss[0]['z']-10.0,key)
+    else: marg=_fwd(ss,0.0,EPD/(2*(EPL-zobj)),zobj,key)
+    mf=max(f[0] for f in spec['fields'])
+    if spec['field_type']=='angle':
+        t=math.tan(math.radians(mf)); chief=_fwd(ss,t*(ss[0]['z']-EPL),t,ss[0]['z'],key)
+    else:
+        u=(0-mf)/(EPL-zobj); chief=_fwd(ss,mf+u*(ss[0]['z']-zobj),u,ss[0]['z'],key)
+    return dict(ya=[r[0] for r in marg],ua=[r[1] for r in marg],yb=[r[0] for r in chief],ub=[r[1] for r in chief],EPL=EPL,EPD=EPD,f2=f2,F2=F2,stop=si+1)
 
 
 def _count_classes(h, spec):
@@ -254,13 +366,32 @@ def _count_classes(h, spec):
         h[key] = h.get(key, 0) + int(on)
     for e in spec.get('edits', []):
         h['edit:' + e['op']] = h.get('edit:' + e['op'], 0) + 1
+    for key in ('route:' + spec.get('route', 'direct'), 'args:' + spec.get('arg_form', 'float_arrays')):
+        h[key] = h.get(key, 0) + 1
+    if spec.get('image_object'):
+        h['image_surface_object'] = h.get('image_surface_object', 0) + 1
+    if math.isfinite(spec['object_thickness']) and spec.get('arg_form') in ('py_int_zero', 'np_int_zero'):
+        h['finite_object_with_integer_zero_args'] = h.get('finite_object_with_integer_zero_args', 0) + 1
     if spec.get('edits') and expected_stop(spec) != [bool(x.get('is_stop')) for x in spec['surfaces']].index(True) + 1:
         h['stop_moved_by_edit'] = h.get('stop_moved_by_edit', 0) + 1
 
 
-def _real(o, Hy, Py, w):
+ARG_FORMS = ['float_arrays', 'py_int_zero', 'np_int_zero', 'py_float_scalars']
+
+
+def _real(o, Hy, Py, w, form='float_arrays'):
+    """one meridional ray through Optic.trace_generic.  `form` = how the caller writes the four coordinates (all
+    accepted by the API): float arrays; Python scalars with the literal int 0 for the unused x coordinates;
+    integer NumPy arrays of zeros for them; Python float scalars"""
     import numpy as np
-    o.trace_generic(np.array([0.0]), np.array([float(Hy)]), np.array([0.0]), np.array([float(Py)]), w)
+    if form == 'py_int_zero':
+        o.trace_generic(0, float(Hy), 0, float(Py), w)
+    elif form == 'np_int_zero':
+        o.trace_generic(np.zeros(1, dtype=int), np.array([float(Hy)]), np.zeros(1, dtype=int), np.array([float(Py)]), w)
+    elif form == 'py_float_scalars':
+        o.trace_generic(0.0, float(Hy), 0.0, float(Py), w)
+    else:
+        o.trace_generic(np.array([0.0]), np.array([float(Hy)]), np.array([0.0]), np.array([float(Py)]), w)
     sg = o.surface_group
     return [np.array(a[:, 0], dtype=float) for a in (sg.y, sg.z, sg.M, sg.N, sg.x, sg.L)]
 
@@ -304,20 +435,64 @@ def _order_ok(es, errs, ref):
     return (order >= ORDER_MIN), order, det
 
 
+def _rel(a, b):
+    if math.isfinite(a) and math.isfinite(b):
+        return abs(a - b) / (1 + abs(a) + abs(b))
+    if (math.isinf(a) or abs(a) > 1e12) and (math.isinf(b) or abs(b) > 1e12):
+        return 0.0          # afocal: the focal length is infinite, its sign is not defined
+    return 0.0 if (math.isnan(a) and math.isnan(b)) else 1.0
+
+
 def convergence_oracle(o, spec):
-    """the property stated on the implementation.  Returns (violations, info)."""
+    """the property stated on the implementation.  Every expected value comes from the generated prescription
+    (spec_paraxial) or from the real rays themselves.  Returns (violations, info)."""
     import numpy as np
-    w = o.primary_wavelength
+    import lensgen
+    w = [x[0] for x in spec['wavelengths'] if x[1]][0]
+    form = spec.get('arg_form', 'float_arrays')
     P = o.paraxial
-    ya, ua = [np.ravel(v).astype(float) for v in P.marginal_ray()]
-    yb, ub = [np.ravel(v).astype(float) for v in P.chief_ray()]
-    mf = float(o.fields.max_y_field)
     ft = spec['field_type']
-    nS = len(o.surface_group.surfaces)
-    flagged = [k for k, sf in enumerate(o.surface_group.surfaces) if sf.is_stop]
-    stop = expected_stop(spec)
+    mf = float(max(f[0] for f in spec['fields']))
     out = []
     info = {'nontrivial': False}
+    pres = spec_paraxial(spec, w, 'c')
+    pres0 = spec_paraxial(spec, w, 'c_radius_only')
+    nS = len(pres['ya']) + 1
+    if len(o.surface_group.surfaces) != nS:
+        out.append({'clause': 'prescription', 'quantity': 'surface count', 'implementation': len(o.surface_group.surfaces),
+                    'entered': nS})
+        return out, info
+    if not any(e['op'] != 'insert_remove' for e in spec.get('edits', [])):
+        for b in lensgen.prescription_problems({k: v for k, v in spec.items() if k not in ('edits', 'route', 'route_seed', 'arg_form')}, o, w):
+            out.append(dict(b, clause='prescription'))
+    # the library's own paraxial quantities against the prescription
+    try:
+        impl = {'EPL': [float(P.EPL())], 'EPD': [float(P.EPD())], 'f2': [float(P.f2())],
+                'ya': np.ravel(P.marginal_ray()[0]).astype(float)[1:], 'ua': np.ravel(P.marginal_ray()[1]).astype(float)[1:]}
+        if mf != 0:
+            cy, cu = P.chief_ray()
+            impl['yb'], impl['ub'] = np.ravel(cy).astype(float)[1:], np.ravel(cu).astype(float)[1:]
+    except Exception as ex:   # noqa
+        impl = None
+        out.append({'clause': 'paraxial-vs-prescription', 'quantity': 'raised ' + type(ex).__name__, 'matches_radius_only': False})
+    if impl is not None:
+        for q, got in impl.items():
+            want = pres[q] if isinstance(pres[q], list) else [pres[q]]
+            want0 = pres0[q] if isinstance(pres0[q], list) else [pres0[q]]
+            if len(got) != len(want):
+                out.append({'clause': 'paraxial-vs-prescription', 'quantity': q, 'detail': f'{len(got)} records for {len(want)} surfaces',
+                            'matches_radius_only': False})
+                continue
+            bad = [k for k in range(len(want)) if _rel(float(got[k]), want[k]) > 1e-8]
+            if bad:
+                k = bad[0]
+                out.append({'clause': 'paraxial-vs-prescription', 'quantity': q, 'surface': k + 1 if len(want) > 1 else None,
+                            'implementation': float(got[k]), 'prescription': want[k],
+                            'matches_radius_only': all(_rel(float(got[m]), want0[m]) <= 1e-8 for m in range(len(want)))})
+    ya, ua = np.array([0.0] + pres['ya']), np.array([0.0] + pres['ua'])
+    yb, ub = np.array([0.0] + pres['yb']), np.array([0.0] + pres['ub'])
+    flagged = [k for k, sf in enumerate(o.surface_group.surfaces) if sf.is_stop]
+    stop = expected_stop(spec)
     if flagged != [stop]:
         out.append({'clause': 'unique-stop', 'flagged_as_stop': flagged, 'expected': stop,
                     'detail': 'the final prescription must carry exactly one aperture stop, the one its construction asks for'})
@@ -330,10 +505,10 @@ def convergence_oracle(o, spec):
         es, Y, U = [], [], []
         for e in EPS:
             if kind == 'marginal':
-                r = _real(o, 0.0, e, w)
+                r = _real(o, 0.0, e, w, form)
                 sc = e * pup0
             else:
-                r = _real(o, e, 0.0, w)
+                r = _real(o, e, 0.0, w, form)
                 sc = e if ft == 'object_height' else math.tan(math.radians(e * mf)) / math.tan(math.radians(mf))
             y, z, M, N, x, L = r
             if len(y) != nS:
@@ -382,7 +557,7 @@ def convergence_oracle(o, spec):
         if math.isfinite(F2):
             es, errs = [], []
             for e in EPS:
-                y, z, M, N, x, L = _real(o, 0.0, e, w)
+                y, z, M, N, x, L = _real(o, 0.0, e, w, form)
                 if len(y) == nS and math.isfinite(y[-1]) and M[-1] != 0:
                     es.append(e)
                     errs.append(abs(-y[-1] / (M[-1] / N[-1]) - F2))
@@ -399,7 +574,7 @@ def convergence_oracle(o, spec):
                 P.trace(Hy * e, Py * e * (1 - vig_factor(spec, Hy * e)[1]) ** 2, w)
                 yp = np.ravel(o.surface_group.y).astype(float)
                 up = np.ravel(o.surface_group.u).astype(float)
-                r = _real(o, Hy * e, Py * e, w)
+                r = _real(o, Hy * e, Py * e, w, form)
             except Exception as ex:   # noqa
                 out.append({'clause': 'paraxial-trace', 'detail': 'raised ' + type(ex).__name__})
                 break
@@ -412,12 +587,7 @@ def convergence_oracle(o, spec):
             if E[-1] > 1e-5 * scale:
                 out.append({'clause': 'paraxial-trace', 'H_P': [Hy, Py], 'errors_over_eps': E,
                             'detail': 'Paraxial.trace(Hy*eps, Py*eps) is not the limit of the real ray'})
-    f2 = None
-    try:
-        f2 = float(P.f2())
-    except Exception:   # noqa
-        pass
-    info['f2'] = f2
+    info['f2'] = pres['f2']
     return out, info
 
 
@@ -559,7 +729,7 @@ def _oracle_sweep(ctx, nl, salt):
             nontrivial += 1
         if bad:
             hist['violating_lenses'] += 1
-            viol.append({'spec': spec, 'oracle': bad[:6], 'clauses': sorted({b['clause'] for b in bad}),
+            viol.append({'spec': spec, 'oracle': bad[:10], 'clauses': sorted({b['clause'] for b in bad}),
                          'violates_property': True})
     return viol, hist, nontrivial
 
@@ -595,14 +765,12 @@ def system_checks(ctx):
 
 
 def search(ctx, broken, disagreements):
-    """the property as a numerical oracle on the real implementation, seeded sweep of fresh lenses"""
+    """the property as a numerical oracle on the real implementation, seeded sweep of fresh lenses (all routes and
+    argument forms); returns a list: witnesses that match no open finding first"""
     viol, hist, _ = _oracle_sweep(ctx, ctx.n(60, 800), 77)
-    known = []
-    for v in viol:
-        if not any(matches_finding(v, f) for f in _open_findings()):
-            return v
-        known.append(v)
-    return known[:1] or None
+    fresh = [v for v in viol if not any(matches_finding(v, f) for f in _open_findings())]
+    known = [v for v in viol if v not in fresh]
+    return (fresh[:3] + known[:1]) or None
 
 
 # ----------------------------------------------------------------------------------------------
@@ -623,7 +791,7 @@ def _has_r2_asphere(spec):
                for s in spec['surfaces'])
 
 
-def _clause_candidates(b, spec):
+def _clause_candidates(b, spec, launch_affected=False):
     """ids of the findings (open or repaired) that would explain one oracle complaint"""
     cl = b['clause']
     finite = math.isfinite(spec['object_thickness'])
@@ -637,12 +805,16 @@ def _clause_candidates(b, spec):
         r = b.get('ratio_real_over_paraxial')
         if r is not None and abs(r + 1) < 1e-3:
             out.append('object-height-sign')
+    if cl == 'paraxial-vs-prescription' and _has_r2_asphere(spec) and b.get('matches_radius_only'):
+        out.append('even-asphere-r2-ignored')     # the library's paraxial value is the one of the curvature 1/R alone
     if _has_r2_asphere(spec) and cl in ('marginal-y', 'marginal-u', 'chief-y', 'chief-u', 'axial-focus', 'axial-focus-F2',
                                         'chief-stop-centre', 'paraxial-trace'):
         # only surfaces at or behind the first such asphere can be affected
         first = min(i for i, s in enumerate(spec['surfaces'])
                     if s.get('type') == 'even_asphere' and s.get('coefficients') and s['coefficients'][0] != 0) + 1
-        if b.get('surface', first) >= first:
+        # ... unless the launch itself is derived from the affected paraxial data (EPD from an image F-number, entrance
+        # pupil of a stop behind the asphere): then the real bundle differs from the prescription's at every surface
+        if launch_affected or b.get('surface', first) >= first:
             out.append('even-asphere-r2-ignored')
     return out
 
@@ -656,8 +828,10 @@ def matches_finding(w, f):
         return False
     open_ids = _open_ids()
     mine = False
+    launch_affected = any(b['clause'] == 'paraxial-vs-prescription' and b.get('quantity') in ('EPD', 'EPL')
+                          and b.get('matches_radius_only') for b in orc)
     for b in orc:
-        cands = [i for i in _clause_candidates(b, spec) if i in open_ids]
+        cands = [i for i in _clause_candidates(b, spec, launch_affected) if i in open_ids]
         if not cands:
             return False
         mine = mine or f['id'] in cands
@@ -693,7 +867,8 @@ def replay_finding(ctx, f):
     bad, _ = convergence_oracle(o, spec)
     w = {'spec': spec, 'oracle': bad}
     if f['id'] == 'even-asphere-r2-ignored':
-        return any(b['clause'] in ('marginal-y', 'marginal-u', 'axial-focus') for b in bad)
+        return any(b['clause'] == 'paraxial-vs-prescription' and b.get('matches_radius_only') for b in bad) and \
+            any(b['clause'] in ('paraxial-trace', 'axial-focus-F2') for b in bad)
     if f['id'] == 'object-height-sign':
         return any(b['clause'] in ('chief-y', 'chief-u') and abs((b.get('ratio_real_over_paraxial') or 0) + 1) < 1e-3
                    for b in bad)
